@@ -152,7 +152,11 @@ def derivePubChild (pr : Prims P) (w : Node) (index : Int) : Option Node :=
     else none                                   -- "Cannot derive hardened index with public key"
   else none
 
-/-- `HDWallet.derive(index, private, hardened)` for an `int` index -/
+/-- `HDWallet.derive(index, private, hardened)` for an `int` index.  Not modelled: the `isinstance(index, int)`
+check (the model's index *is* an integer) and the "Missing root keys" check (the root fields are copied unchanged
+into every derived wallet and are non-empty for every wallet built by `from_seed`/`from_entropy`/`from_mnemonic`).
+Note that the offset is added *before* the range assertion, so `derive(-1, hardened=True)` is the soft child
+`2^31 - 1` and `derive(2^31, hardened=False)` is the hardened child `0'`. -/
 def derive (pr : Prims P) (w : Node) (index : Int) (priv hardened : Bool) : Option Node :=
   let index := if hardened then index + 2 ^ 31 else index
   if priv then derivePrivChild pr w index else derivePubChild pr w index
